@@ -97,6 +97,11 @@ MUTANTS = [
          old='''            if 'trunc_err' in self.resume_data:
                 self.trunc_err = self.resume_data['trunc_err']
 ''', new=''''''),
+    dict(id='M18-13', prop='C18', file='tenpy/simulations/time_evolution.py', descr='a resumed time evolution never reaches its final time (liveness)',
+         old='''        self.final_time = self.options['final_time'] - 1.0e-10  # subtract eps: roundoff errors''',
+         new='''        self.final_time = self.options['final_time'] - 1.0e-10  # subtract eps: roundoff errors
+        if self.loaded_from_checkpoint:
+            self.final_time = float('inf')'''),
     # ---------------------------------------------------------------- C20
     dict(id='M20-01', prop='C20', file='tenpy/tools/cache.py', descr='drop join_tasks() in ThreadedStorage.save pending-preload branch',
          old='''            self.worker.join_tasks()
